@@ -417,9 +417,44 @@ def run(ck, F):
             if n.get('k') == 'cast' and n.get('ck') == 'BaseToDerived':
                 q = _re3.sub(r'<[^<>]*(?:<[^<>]*>[^<>]*)*>', '', contracts.fn_qname(f['id']))
                 sites.setdefault((q, f['loc'].split(':')[0]), []).append((f, n))
+    _callers = {}
+
+    def callers_of(fid):
+        if not _callers:
+            for g in F.fn.values():
+                for m in walk(g.get('body')):
+                    if m.get('k') == 'call' and m.get('callee'):
+                        _callers.setdefault(m['callee'].get('id'), set()).add(g['id'])
+        return _callers.get(fid, set())
+
+    def confirmed(f, n, depth=0):
+        """the cast sits in a confirmed function, or in a helper of the same class that converts its own parameter and is called
+        from confirmed functions only (the argument made for the site carries over: the same object, the same cast)"""
+        q = _re3.sub(r'<[^<>]*(?:<[^<>]*>[^<>]*)*>', '', contracts.fn_qname(f['id']))
+        if q in CONFIRMED_DOWNCASTS:
+            return True
+        if depth >= 2 or not f.get('parent'):
+            return False
+        src = strip_casts(n.get('e') or {})
+        if not (src.get('k') == 'ref' and src.get('kind') == 'parm'):
+            return False
+        cs = callers_of(f['id'])
+        if not cs:
+            return False
+        for cid in cs:
+            g = F.fn.get(cid)
+            if g is None or (g.get('parent') or '') != f['parent']:
+                return False
+            # the caller hands its own parameter on
+            hands_on = any(m.get('k') == 'call' and (m.get('callee') or {}).get('id') == f['id'] and len(m.get('args', [])) > src.get('idx', 99)
+                           and strip_casts(m['args'][src['idx']]).get('kind') == 'parm' for m in walk(g.get('body')))
+            gq = _re3.sub(r'<[^<>]*(?:<[^<>]*>[^<>]*)*>', '', contracts.fn_qname(cid))
+            if not (hands_on and gq in CONFIRMED_DOWNCASTS):
+                return False
+        return True
     for (q, _file), lst in sorted(sites.items()):
         f, n = lst[0]
-        ck.check(R4d, contracts.short(q), q in CONFIRMED_DOWNCASTS,
+        ck.check(R4d, contracts.short(q), all(confirmed(f_, n_) for f_, n_ in lst),
                  f'{f["id"]} (line {n.get("ln")}) casts a `{(n.get("e") or {}).get("t")}` down to `{n.get("t")}` without establishing what the object is: '
                  'if it is of another kind, the members read afterwards are another class\'s', loc=f['loc'], fn=f['id'])
 
